@@ -71,6 +71,22 @@ pub struct Scn {
     /// every `idle_every` deliveries the clock jumps ahead by `idle_ns` (lets TTLs expire)
     pub idle_every: usize,
     pub idle_ns: u64,
+    /// population scenario: instead of a few long connections, a long succession of short complete ones
+    #[serde(default)]
+    pub churn: Option<Churn>,
+}
+
+/// `n_values` distinct sets of header / hello values; each is used by `repeats` consecutive-ish connections
+/// (so values recur, as they do in real traffic); every connection completes and is distinct (own client).
+#[derive(Clone, Debug, Serialize, Deserialize)]
+pub struct Churn {
+    pub n_values: usize,
+    pub repeats: usize,
+    /// approximate size of the long header values (Accept-Language list, cookie) / hello padding
+    pub value_len: usize,
+    pub seed: u64,
+    /// a value's repeat follows after this many other connections (0 = immediately)
+    pub distance: usize,
 }
 
 pub struct C11;
@@ -204,10 +220,22 @@ impl Prop for C11 {
                 payload_seed: r.next_u64(),
             });
         }
-        Scn { kind, cap, conns, gap_ns: *r.pick(&[1_000u64, 100_000, 5_000_000]), idle_every: *r.pick(&[0usize, 0, 500, 2000]), idle_ns: *r.pick(&[21_000_000_000u64, 61_000_000_000, 601_000_000_000]) }
+        let scn = Scn { kind, cap, conns, gap_ns: *r.pick(&[1_000u64, 100_000, 5_000_000]), idle_every: *r.pick(&[0usize, 0, 500, 2000]), idle_ns: *r.pick(&[21_000_000_000u64, 61_000_000_000, 601_000_000_000]), churn: None };
+        // one scenario in twelve is a population scenario
+        if r.chance(1, 12) {
+            let n_values = match tier {
+                Tier::Quick => r.urange(3000, 6000),
+                Tier::Thorough => r.urange(6000, 40_000),
+            };
+            return Scn { cap: *r.pick(&[1usize, 2, 4]), conns: vec![], churn: Some(Churn { n_values, repeats: r.urange(1, 3), value_len: *r.pick(&[200usize, 800, 1500]), seed: r.next_u64(), distance: *r.pick(&[0usize, 1, 7, 100]) }), ..scn };
+        }
+        scn
     }
 
     fn run(s: &Scn, st: &mut RunStats) -> Result<(), Violation> {
+        if let Some(ch) = &s.churn {
+            return run_churn(s, ch, st);
+        }
         clock::arm(1_700_000_000_000);
         let cfg = SutCfg::new(s.kind, s.cap);
         let mut sut = Sut::new(&cfg).map_err(|e| Violation::new("harness-error", "", e))?;
@@ -339,6 +367,24 @@ impl Prop for C11 {
 
     fn shrink(s: &Scn) -> Vec<Scn> {
         let mut out = vec![];
+        if let Some(ch) = &s.churn {
+            if ch.n_values > 700 {
+                let mut x = s.clone();
+                x.churn = Some(Churn { n_values: ch.n_values * 3 / 4, ..ch.clone() });
+                out.push(x);
+            }
+            if ch.repeats > 1 {
+                let mut x = s.clone();
+                x.churn = Some(Churn { repeats: ch.repeats - 1, ..ch.clone() });
+                out.push(x);
+            }
+            if ch.distance > 0 {
+                let mut x = s.clone();
+                x.churn = Some(Churn { distance: 0, ..ch.clone() });
+                out.push(x);
+            }
+            return out;
+        }
         if s.conns.len() > 1 {
             for i in 0..s.conns.len() {
                 let mut x = s.clone();
@@ -360,4 +406,136 @@ impl Prop for C11 {
         }
         out
     }
+}
+
+/// The bytes one connection of the population carries, derived from its value index only (repeats are identical).
+fn churn_streams(kind: Kind, ch: &Churn, v: usize) -> (Vec<u8>, Vec<u8>) {
+    let mut r = Rng::new(ch.seed ^ crate::rng::mix64(v as u64 + 1));
+    let tok = |r: &mut Rng, n: usize| -> String {
+        const A: &[u8] = b"abcdefghijklmnopqrstuvwxyz0123456789";
+        (0..n).map(|_| A[r.usize_below(A.len())] as char).collect()
+    };
+    if kind == Kind::Tls {
+        let mut spec = tls::random_spec(&mut r, 4000);
+        spec.sni = Some(format!("{}.{}.example.test", tok(&mut r, 12), v));
+        spec.target_len = ch.value_len.max(300);
+        spec.coalesced_before = 0;
+        return (tls::client_hello(&mut r, &spec), vec![]);
+    }
+    const TAGS: [&str; 20] = ["en", "en-US", "en-GB", "de", "de-DE", "fr", "fr-FR", "es", "es-ES", "it", "pt", "pt-BR", "nl", "sv", "pl", "ru", "ja", "ko", "zh-CN", "tr"];
+    let mut langs = vec![];
+    let mut len = 0;
+    while len < ch.value_len {
+        let e = format!("{};q=0.{}", r.pick(&TAGS), r.below(1000));
+        len += e.len() + 1;
+        langs.push(e);
+    }
+    let req = format!(
+        "GET /{} HTTP/1.1\r\nHost: {}.example.test\r\nUser-Agent: Mozilla/5.0 (X11; Linux x86_64; rv:{}.0) Gecko/20100101 Firefox/{}.0\r\nAccept: text/html,*/*;q=0.8\r\nAccept-Language: {}\r\nCookie: sid={}\r\nReferer: http://{}.example.test/{}\r\n\r\n",
+        tok(&mut r, 16),
+        tok(&mut r, 10),
+        v,
+        v,
+        langs.join(","),
+        tok(&mut r, ch.value_len / 2 + 8),
+        tok(&mut r, 8),
+        tok(&mut r, 12)
+    );
+    let resp = format!("HTTP/1.1 200 OK\r\nServer: nginx/1.{}.{}\r\nContent-Type: text/html; charset={}\r\nX-Request-Id: {}\r\nContent-Length: 0\r\n\r\n", v % 97, v, tok(&mut r, 6), tok(&mut r, 24));
+    (req.into_bytes(), resp.into_bytes())
+}
+
+/// Population scenario: `n_values x repeats` short complete connections in succession on one analyzer of
+/// small capacity. At most one connection is open at any time, so whatever the analyzer retains beyond one
+/// connection's worth is history: it must stay under the bound and must not grow with the number of
+/// connections (or distinct values) seen.
+fn run_churn(s: &Scn, ch: &Churn, st: &mut RunStats) -> Result<(), Violation> {
+    clock::arm(1_700_000_000_000);
+    let cfg = SutCfg::new(s.kind, s.cap);
+    let mut sut = Sut::new(&cfg).map_err(|e| Violation::new("harness-error", "", e))?;
+    // order of value indices: value v is used again `distance` connections after its previous use
+    let mut order: Vec<usize> = Vec::with_capacity(ch.n_values * ch.repeats);
+    {
+        let block = ch.distance + 1;
+        let mut v0 = 0;
+        while v0 < ch.n_values {
+            let hi = (v0 + block).min(ch.n_values);
+            for _ in 0..ch.repeats {
+                order.extend(v0..hi);
+            }
+            v0 = hi;
+        }
+    }
+    let total = order.len();
+    let mut lives: Vec<i64> = Vec::with_capacity(total + 1);
+    let mut allocs: Vec<u64> = Vec::with_capacity(total + 1);
+    // warm the analyzer with one connection before the baseline (lazily created tables)
+    let key = format!("{}:population", s.kind.name());
+    let live_bound = L_PER_CONN * s.cap.max(1) as i64 + SLACK;
+    let mut base_live: Option<i64> = None;
+    let mut results = 0u64;
+    st.evals = 0;
+    for (ci, v) in order.iter().enumerate() {
+        let (req, resp) = churn_streams(s.kind, ch, *v);
+        let h = crate::gen::tcp::Host { profile: ci % 4, ts_hz: 1000, ts_base: 77 + ci as u32, ttl: 64 };
+        let client = Endpoint::v4(10, 8 + (ci >> 16) as u8, (ci >> 8) as u8, ci as u8, 1024 + (ci % 60000) as u16);
+        let server = Endpoint::v4(10, 4, 0, 1, if s.kind == Kind::Tls { 443 } else { 80 });
+        let mut frames = vec![
+            crate::gen::tcp::syn(&h, client, server, 1000, clock::mono_ns()),
+            crate::gen::tcp::syn_ack(&h, client, server, 5000, 1000, clock::mono_ns(), 1),
+            crate::gen::tcp::data(&h, client, server, 1001, 5001, req.clone(), clock::mono_ns(), 1, pkt::ACK | pkt::PSH),
+        ];
+        if !resp.is_empty() {
+            frames.push(crate::gen::tcp::data(&h, server, client, 5001, 1001u32.wrapping_add(req.len() as u32), resp, clock::mono_ns(), 1, pkt::ACK | pkt::PSH));
+        }
+        let mut alloc_conn = 0u64;
+        for seg in &frames {
+            let frame = pkt::frame(seg, Framing::Ethernet);
+            clock::advance_ns(s.gap_ns);
+            let before = alloc::snap();
+            let out = sut.deliver(&frame);
+            let after = alloc::snap();
+            results += out.obs.iter().filter(|o| matches!(o.kind.as_str(), "http_request" | "http_response" | "tls" | "syn")).count() as u64;
+            drop(out);
+            alloc_conn += after.allocated - before.allocated;
+            st.packets += 1;
+            let alloc_i = after.allocated - before.allocated;
+            if alloc_i > A_CONST + B_PER_BYTE * frame.len() as u64 {
+                return Err(Violation::new("per-packet-work", key, format!("connection {} of the population: handling one {} B frame allocated {} KiB", ci, frame.len(), alloc_i / 1024)));
+            }
+        }
+        st.evals += 1;
+        let live_now = alloc::snap().live();
+        let b = *base_live.get_or_insert(live_now);
+        let live_i = live_now - b;
+        lives.push(live_i);
+        allocs.push(alloc_conn);
+        if ci % 256 == 0 {
+            st.ev_u64(alloc_conn / 4096);
+        }
+        if live_i > live_bound {
+            return Err(Violation::new("retained-memory", key, format!("after {} short complete connections ({} distinct value sets so far, one open at a time): analyzer retains {} KiB above what it held after the first one; bound {} connections x 512 KiB + 1 MiB = {} KiB", ci + 1, order[..=ci].iter().max().map(|m| m + 1).unwrap_or(0), live_i / 1024, s.cap.max(1), live_bound / 1024)));
+        }
+    }
+    st.fault_n("connection_churn", total as u64);
+    if lives.len() >= 200 {
+        let tenth = lives.len() / 10;
+        let mut first: Vec<u64> = lives[..tenth].iter().map(|x| (*x).max(0) as u64).collect();
+        let mut last: Vec<u64> = lives[lives.len() - tenth..].iter().map(|x| (*x).max(0) as u64).collect();
+        let (mf, ml) = (median(&mut first) as i64, median(&mut last) as i64);
+        let allowed = L_PER_CONN * s.cap.max(1) as i64;
+        if ml - mf > allowed {
+            return Err(Violation::new("retained-memory-grows", key.clone(), format!("retained memory grew from {} KiB (median over the first tenth of {} connections) to {} KiB (last tenth); allowed growth {} KiB", mf / 1024, lives.len(), ml / 1024, allowed / 1024)));
+        }
+        let mut fa: Vec<u64> = allocs[..tenth].to_vec();
+        let mut la: Vec<u64> = allocs[allocs.len() - tenth..].to_vec();
+        let (mf, ml) = (median(&mut fa), median(&mut la));
+        if ml > 2 * mf + A_CONST / 2 {
+            return Err(Violation::new("work-grows-with-history", key, format!("median allocation per connection grew from {} B (first tenth) to {} B (last tenth) over {} connections", mf, ml, allocs.len())));
+        }
+    }
+    st.sim_ns = clock::mono_ns();
+    st.nontrivial = results as usize >= total / 2;
+    st.probe_n("population_connections", total as u64);
+    Ok(())
 }
